@@ -2133,6 +2133,7 @@ void decompressDataSeries_float_2D_MSST19(float** data, size_t r1, size_t r2, Ti
 		memcpy(multisteps->hist_data, (*data), dataSeriesLength*sizeof(float));
 #endif	
 
+	free(precisionTable);
 	free(leadNum);
 	free(type);
 	return;
@@ -2690,6 +2691,7 @@ void decompressDataSeries_float_3D_MSST19(float** data, size_t r1, size_t r2, si
 		memcpy(multisteps->hist_data, (*data), dataSeriesLength*sizeof(float));
 #endif		
 
+	free(precisionTable);
 	free(leadNum);
 	free(type);
 	return;
